@@ -901,6 +901,13 @@ CORPUS = [
                                                           ("move", ("shift", ("gv", "g"), ("f", 1), ("f", 1))),
                                                           ("move", ("shift", ("gv", "g"), ("f", -1), ("f", 2))), ("move", ("gv", "g"))]}],
      "args": [("from", [5], [0, 1])]},
+    # a move onto a grid with the same NUMBER of sites but another shape (2x2 -> 1x4, 1x2 -> 2x1) is a shape error
+    {"kernels": [{"name": "main", "params": [G], "body": [("set", ("gv", "g")), ("turn", True, ("ALL",), ("ALL",)),
+                                                          ("move", ("from", [0, 1, 2, 3], [5]))]}],
+     "args": [("from", [0, 1], [0, 1])]},
+    {"kernels": [{"name": "main", "params": [G], "body": [("set", ("from", [0, 1], [5])), ("move", ("from", [7], [5, 6])),
+                                                          ("turn", False, ("ALL",), ("ALL",))]}],
+     "args": [("from", [0, 1], [0, 1])]},
     # a set_loc while tones are on, to a grid of another shape, opens a new segment (it is not a move)
     {"kernels": [{"name": "main", "params": [G], "body": [("set", ("gv", "g")), ("turn", True, ("ALL",), ("ALL",)),
                                                           ("move", ("shift", ("gv", "g"), ("f", 1), ("f", 0))),
